@@ -291,6 +291,7 @@ func (tracker *flowTracker) run() {
 			if locked {
 				tracker.lock.Unlock()
 			}
+			tracker.drain()
 			return
 		default:
 			// Nothing else is coming in, unlock if locked
@@ -321,9 +322,18 @@ func (tracker *flowTracker) run() {
 			if locked {
 				tracker.lock.Unlock()
 			}
+			tracker.drain()
 			return
 		}
 
+	}
+}
+
+// drain keeps reading the subscription of a tracker that was shut down until the
+// tracer closes it: left unread, it filled up and blocked the tracer (and so the
+// shutdown of the whole instance) a few traces after the gateway's cancellation
+func (tracker *flowTracker) drain() {
+	for range tracker.traces {
 	}
 }
 
